@@ -35,6 +35,10 @@ def addAt (r : List Int) (j : Nat) (d : Int) : List Int := updAt r j (· + d)
 /-- `m[i][j] += d` -/
 def add2 (m : Mat) (i j : Nat) (d : Int) : Mat := updAt m i (fun r => addAt r j d)
 
+/-- `m[i][j] += d` with the vector accesses bounds-checked (`none` = out of range, undefined behaviour in C++) -/
+def add2? (n m : Nat) (a : Mat) (i j : Nat) (d : Int) : Option Mat :=
+  if i < n ∧ j < m ∧ j < (a.getD i []).length then some (add2 a i j d) else none
+
 /-- Σ_{i<n} f i -/
 def sumTo : Nat → (Nat → Int) → Int
   | 0, _ => 0
@@ -346,14 +350,19 @@ def sendStep (p : Problem) (m : Int) (alloc : Mat) (qs : Queues) (snk1 snk2 sent
       match sentSourceQ qs1 snk1 snk2 with
       | .error e => .error e
       | .ok newSrc =>
-        match movingCostQ
-            (updateSinkQueues p (add2 (add2 alloc snk1 sentSrc m) snk1 newSrc (-m)) qs1 snk1 newSrc) snk1 snk2 with
-        | .error e => .error e
-        | .ok newCost =>
-          .ok { alloc := add2 (add2 alloc snk1 sentSrc m) snk1 newSrc (-m),
-                queues := updateSinkQueues p (add2 (add2 alloc snk1 sentSrc m) snk1 newSrc (-m)) qs1 snk1 newSrc,
-                newSrc := newSrc,
-                costUp := decide (newCost > oldCost) }
+        match add2? p.nbSinks p.nbSources alloc snk1 sentSrc m with
+        | none => .error "ub: index out of range"
+        | some a1 =>
+          match add2? p.nbSinks p.nbSources a1 snk1 newSrc (-m) with
+          | none => .error "ub: index out of range"
+          | some a2 =>
+            match movingCostQ (updateSinkQueues p a2 qs1 snk1 newSrc) snk1 snk2 with
+            | .error e => .error e
+            | .ok newCost =>
+              .ok { alloc := a2,
+                    queues := updateSinkQueues p a2 qs1 snk1 newSrc,
+                    newSrc := newSrc,
+                    costUp := decide (newCost > oldCost) }
 
 /-- result of the second walk: allocations, queues, root, source arriving at the root, needUpdate -/
 structure Walk where
@@ -376,6 +385,17 @@ def sendLoop (p : Problem) (remCapa : List Int) (parent : List (Option Nat)) (m 
         | .error e => .error e
         | .ok st => sendLoop p remCapa parent m fuel st.alloc st.queues snk2 st.newSrc (nu || st.costUp)
 
+/-- tail of `sendSource(src, sink, quantity)`: `initQueues` if the root became full, `updateTree` if needed -/
+def finishSend (p : Problem) (s : St) (queues : Queues) (root : Nat) (needUpdate : Bool) (alloc : Mat)
+    (remCapa : List Int) (m : Int) : Except String (St × Int) :=
+  let full := remCapa.getD root 0 == 0
+  let qs := if full then queues.setIfInBounds root (initQueues p alloc root) else queues
+  if needUpdate || full then
+    match updateTree p qs remCapa with
+    | .error e => .error e
+    | .ok t => .ok ({ alloc := alloc, queues := qs, remCapa := remCapa, sendCost := t.sendCost, parent := t.parent }, m)
+  else .ok ({ alloc := alloc, queues := qs, remCapa := remCapa, sendCost := s.sendCost, parent := s.parent }, m)
+
 /-- `sendSource(src, sink, quantity)`; returns the new state and the quantity sent -/
 def sendSource3 (p : Problem) (s : St) (src sink : Nat) (quantity : Int) : Except String (St × Int) :=
   match maxSentLoop s.alloc s.queues s.parent (p.nbSinks + 1) sink quantity with
@@ -387,16 +407,14 @@ def sendSource3 (p : Problem) (s : St) (src sink : Nat) (quantity : Int) : Excep
       | .error e => .error e
       | .ok w =>
         -- allocations_[snk1][sentSrc] += maxSent; remainingCapa_[snk1] -= maxSent
-        let m := min ms (s.remCapa.getD root 0)
-        let alloc := add2 w.alloc w.root w.src m
-        let remCapa := s.remCapa.set w.root (s.remCapa.getD w.root 0 - m)
-        let full := remCapa.getD w.root 0 == 0
-        let qs := if full then w.queues.setIfInBounds w.root (initQueues p alloc w.root) else w.queues
-        if w.needUpdate || full then
-          match updateTree p qs remCapa with
-          | .error e => .error e
-          | .ok t => .ok ({ alloc := alloc, queues := qs, remCapa := remCapa, sendCost := t.sendCost, parent := t.parent }, m)
-        else .ok ({ alloc := alloc, queues := qs, remCapa := remCapa, sendCost := s.sendCost, parent := s.parent }, m)
+        match add2? p.nbSinks p.nbSources w.alloc w.root w.src (min ms (s.remCapa.getD root 0)) with
+        | none => .error "ub: index out of range"
+        | some alloc =>
+          if w.root < s.remCapa.length then
+            finishSend p s w.queues w.root w.needUpdate alloc
+              (s.remCapa.set w.root (s.remCapa.getD w.root 0 - min ms (s.remCapa.getD root 0)))
+              (min ms (s.remCapa.getD root 0))
+          else .error "ub: index out of range"
     else .error "assert: maxSent > 0 (root)"
 
 /-- `sendSource(src)`: the `while (remaining > 0)` loop; `fuel ≥ remaining` always suffices because
